@@ -42,7 +42,27 @@ type corsPlan struct {
 
 type corsCounters struct{ ran, later int }
 
+// world: what changes behind the container's back during a sequence
+type corsWorld struct {
+	u1    *restful.WebService
+	h     restful.RouteFunction
+	grown bool // /u1 also serves PUT
+}
+
+func (w *corsWorld) grow() {
+	if !w.grown {
+		w.u1.Route(w.u1.PUT("").To(w.h))
+		w.grown = true
+	}
+}
+
 func corsContainer(cfg *corsCfg, cnt *corsCounters) *restful.Container {
+	c, _ := corsContainerW(cfg, cnt, nil)
+	return c
+}
+
+// second: an additional, restrictive CORS filter on the WebServices (cookies, expose X-B, only http://b.org)
+func corsContainerW(cfg *corsCfg, cnt *corsCounters, second *restful.CrossOriginResourceSharing) (*restful.Container, *corsWorld) {
 	c := restful.NewContainer()
 	if cfg != nil {
 		cors := restful.CrossOriginResourceSharing{
@@ -69,17 +89,25 @@ func corsContainer(cfg *corsCfg, cnt *corsCounters) *restful.Container {
 		resp.Write([]byte("ok:" + req.Request.URL.Path))
 	}
 	u1 := new(restful.WebService).Path("/u1")
+	u1.SetDynamicRoutes(true)
 	u1.Route(u1.GET("").To(h))
 	u2 := new(restful.WebService).Path("/u2")
 	u2.Route(u2.GET("").To(h))
 	u2.Route(u2.PUT("").To(h))
+	if second != nil {
+		u1.Filter(second.Filter)
+		u2.Filter(second.Filter)
+	}
 	c.Add(u1).Add(u2)
-	return c
+	return c, &corsWorld{u1: u1, h: h}
 }
 
-func corsRoutable(url string) []string {
+func corsRoutable(url string, grown bool) []string {
 	switch url {
 	case "/u1":
+		if grown {
+			return []string{"GET", "PUT"}
+		}
 		return []string{"GET"}
 	case "/u2":
 		return []string{"GET", "PUT"}
@@ -142,9 +170,14 @@ func runCorsCfg(tw *traceWriter, cfg corsCfg, reqs []corsReq) {
 	cfg.Domains, cfg.Methods, cfg.Headers, cfg.Expose = nonNil(cfg.Domains), nonNil(cfg.Methods), nonNil(cfg.Headers), nonNil(cfg.Expose)
 	tw.emit(map[string]interface{}{"e": "cfg", "cfg": cfg})
 	var cnt, tcnt corsCounters
-	c := corsContainer(&cfg, &cnt)
-	twin := corsContainer(nil, &tcnt)
-	for _, rq := range reqs {
+	c, world := corsContainerW(&cfg, &cnt, nil)
+	twin, tworld := corsContainerW(nil, &tcnt, nil)
+	for i, rq := range reqs {
+		if i == len(reqs)/2 {
+			// a route is added to an already registered WebService: /u1 serves PUT from now on
+			world.grow()
+			tworld.grow()
+		}
 		if !validHeaderValue(rq.Origin) || !validHeaderValue(rq.Acrh) || !validHeaderValue(rq.Acrm) {
 			continue
 		}
@@ -153,8 +186,40 @@ func runCorsCfg(tw *traceWriter, cfg corsCfg, reqs []corsReq) {
 		if proj.St == -2 {
 			continue
 		}
-		tw.emit(map[string]interface{}{"e": "creq", "req": rq, "routable": corsRoutable(rq.URL), "ac": ac,
+		tw.emit(map[string]interface{}{"e": "creq", "req": rq, "routable": corsRoutable(rq.URL, world.grown), "ac": ac,
 			"ran": proj.Ran, "later": proj.Later, "proj": proj, "twin": tproj, "panic": panicked})
+	}
+}
+
+// two CORS filters in one chain: the configured one on the container and a restrictive one (only
+// http://b.org, cookies, expose X-B) on the WebServices. What only the second filter grants
+// (credentials - when the first has none - and X-B) may only appear for origins the second allows.
+func runCorsStacked(tw *traceWriter, cfg corsCfg, reqs []corsReq) {
+	cfg.Domains, cfg.Methods, cfg.Headers, cfg.Expose = nonNil(cfg.Domains), nonNil(cfg.Methods), nonNil(cfg.Headers), nonNil(cfg.Expose)
+	cfg.Cookies = false
+	var cnt corsCounters
+	second := &restful.CrossOriginResourceSharing{AllowedDomains: []string{"http://b.org"}, CookiesAllowed: true, ExposeHeaders: []string{"X-B"}}
+	c, _ := corsContainerW(&cfg, &cnt, second)
+	second.Container = c
+	for _, rq := range reqs {
+		if !validHeaderValue(rq.Origin) || !validHeaderValue(rq.Acrh) || !validHeaderValue(rq.Acrm) || rq.M == "OPTIONS" {
+			continue
+		}
+		_, ac, panicked := corsObserve(c, &cnt, rq)
+		cred, xb := false, false
+		for _, h := range ac {
+			if h[0].(string) == "Access-Control-Allow-Credentials" {
+				cred = true
+			}
+			if h[0].(string) == "Access-Control-Expose-Headers" {
+				for _, v := range h[1].([]string) {
+					if strings.Contains(v, "X-B") {
+						xb = true
+					}
+				}
+			}
+		}
+		tw.emit(map[string]interface{}{"e": "cstack", "origin": rq.Origin, "second": []string{"http://b.org"}, "cred": cred, "xb": xb, "panic": panicked})
 	}
 }
 
@@ -223,7 +288,7 @@ func runCors(planPath, outPath string, seed int64) {
 			runCorsCfg(tw, cfg, sh)
 		}
 	}
-	domPool := []string{"http://a.com", "https://A.com", "http://b.org", "a.com", "https://shop.example.com", "http://localhost:3000",
+	domPool := []string{"", " ", "http://a.com", "https://A.com", "http://b.org", "a.com", "https://shop.example.com", "http://localhost:3000",
 		"http://[::1]:8080", "https://user@host.test", "http://a^b.test"}
 	hdrPool := []string{"X-A", "x-a", "X-B", "Content-Type", "Authorization", "X-C"}
 	for i := 0; i < p.Random; i++ {
@@ -299,6 +364,10 @@ func runCors(planPath, outPath string, seed int64) {
 			reqs = append(reqs, rq)
 		}
 		runCorsCfg(tw, cfg, reqs)
+		if i%4 == 0 {
+			tw.emit(map[string]interface{}{"e": "cfg", "cfg": cfg})
+			runCorsStacked(tw, cfg, reqs)
+		}
 	}
 	_ = fmt.Sprint
 	_ = http.StatusOK
